@@ -38,3 +38,99 @@ pub fn idpf_prg_log(start: bool) -> Vec<(u8, bool, [u8; 16], Vec<u8>)> {
         old.unwrap_or_default()
     })
 }
+
+/// Crate-private NTT and Lagrange-basis polynomial routines, re-exported for the checker. Errors
+/// are returned as their `Debug` names.
+pub mod poly {
+    use crate::field::NttFriendlyFieldElement;
+
+    /// `ntt` (`set_s = false`) / `ntt_set_s` (`set_s = true`) into a zeroed output of `out_len`.
+    pub fn ntt<F: NttFriendlyFieldElement>(
+        out_len: usize,
+        inp: &[F],
+        size: usize,
+        set_s: bool,
+    ) -> Result<Vec<F>, String> {
+        let mut out = vec![F::zero(); out_len];
+        let r = if set_s {
+            crate::ntt::ntt_set_s(&mut out, inp, size)
+        } else {
+            crate::ntt::ntt(&mut out, inp, size)
+        };
+        r.map(|_| out).map_err(|e| format!("{e:?}"))
+    }
+
+    /// `ntt_inv` into a zeroed output of `out_len`.
+    pub fn ntt_inv<F: NttFriendlyFieldElement>(
+        out_len: usize,
+        inp: &[F],
+        size: usize,
+    ) -> Result<Vec<F>, String> {
+        let mut out = vec![F::zero(); out_len];
+        crate::ntt::ntt_inv(&mut out, inp, size)
+            .map(|_| out)
+            .map_err(|e| format!("{e:?}"))
+    }
+
+    /// `nth_root_powers`
+    pub fn nth_root_powers<F: NttFriendlyFieldElement>(n: usize) -> Vec<F> {
+        crate::polynomial::nth_root_powers(n)
+    }
+
+    /// `poly_eval_lagrange_batched`
+    pub fn poly_eval_lagrange_batched<F: NttFriendlyFieldElement>(
+        polynomials: &[Vec<F>],
+        x: F,
+    ) -> Vec<F> {
+        crate::polynomial::poly_eval_lagrange_batched(polynomials, x)
+    }
+
+    /// `extend_values_to_power_of_2`
+    pub fn extend_values_to_power_of_2<F: NttFriendlyFieldElement>(
+        polynomial: &mut [F],
+        num_values: usize,
+    ) {
+        crate::polynomial::extend_values_to_power_of_2(polynomial, num_values)
+    }
+
+    /// `double_evaluations` into a zeroed output of `out_len`.
+    pub fn double_evaluations<F: NttFriendlyFieldElement>(
+        out_len: usize,
+        evaluations: &[F],
+    ) -> Result<Vec<F>, String> {
+        let mut out = vec![F::zero(); out_len];
+        crate::polynomial::double_evaluations(&mut out, evaluations)
+            .map(|_| out)
+            .map_err(|e| format!("{e:?}"))
+    }
+
+    /// `poly_mul_lagrange` into a zeroed output of `out_len`.
+    pub fn poly_mul_lagrange<F: NttFriendlyFieldElement>(
+        out_len: usize,
+        p: &[F],
+        q: &[F],
+    ) -> Result<Vec<F>, String> {
+        let mut out = vec![F::zero(); out_len];
+        crate::polynomial::poly_mul_lagrange(&mut out, p, q)
+            .map(|_| out)
+            .map_err(|e| format!("{e:?}"))
+    }
+
+    /// `poly_range_check`
+    pub fn poly_range_check<F: NttFriendlyFieldElement>(start: usize, end: usize) -> Vec<F> {
+        crate::polynomial::poly_range_check(start, end)
+    }
+
+    /// `poly_eval_monomial`, `poly_deg`, `poly_mul_monomial`
+    pub fn poly_eval_monomial<F: NttFriendlyFieldElement>(poly: &[F], x: F) -> F {
+        crate::polynomial::poly_eval_monomial(poly, x)
+    }
+    /// `poly_deg`
+    pub fn poly_deg<F: NttFriendlyFieldElement>(p: &[F]) -> usize {
+        crate::polynomial::poly_deg(p)
+    }
+    /// `poly_mul_monomial`
+    pub fn poly_mul_monomial<F: NttFriendlyFieldElement>(p: &[F], q: &[F]) -> Vec<F> {
+        crate::polynomial::poly_mul_monomial(p, q)
+    }
+}
